@@ -635,6 +635,11 @@ class _Sim:
             for fb in fbs:
                 self.fbvals[f"{owner}.fb.{fb['name']}"] = fb
         self.keys = sorted((c["name"], a["attr"]) for c in cfg["components"] for a in (c["resets"] + c["plain_attrs"]))
+        self.threaded = False
+        self.at_wait = None
+        self.resumed = None
+        self.booked = None
+        self._pending = None
         self.boxes = {}
         self.struct_subs = {}
         self.cur_owner = None
@@ -786,10 +791,28 @@ class _Sim:
         return n
 
     def wait_seam(self, handle):
+        if self.threaded and not self.aborted:
+            # conventional arrangement (self-test only): the robot thread really blocks in the HAL wait;
+            # the scheduler thread does the bookkeeping and advances the clock, which wakes it up
+            self.at_wait.set()
+            self.booked.wait()          # the scheduler has recorded this visit (clock, alarm, NetworkTables)
+            self.booked.clear()
+            r = self.real_wait(handle)  # blocks for real until the scheduler thread has advanced the clock
+            self.resumed.wait()
+            self.resumed.clear()
+            return r
+        self.seam_work()
+        return self.real_wait(handle)
+
+    def seam_work(self, phase=0):
+        """phase 0: everything (inverted loop); 1: record the visit; 2: advance the clock and deliver events"""
         w = self.world
         if self.aborted:
-            return self.real_wait(handle)
+            return
+        if phase == 2:
+            n, alarm = self._pending
         try:
+          if phase in (0, 1):
             n = self.visits.get("wait", 0) + 1
             self.visits["wait"] = n
             alarm = w.hs.getNextNotifierTimeout()
@@ -804,6 +827,8 @@ class _Sim:
                         val = {"rot": round(val.radians(), 9)} if dec[1] == "rot" else [{"tr": [t.X(), t.Y()]} for t in val]
                     fb[key] = list(val) if isinstance(val, (list, tuple)) else val
             self.log.append(["wait", n, w.now_us(), alarm, fb, None])
+            self._pending = (n, alarm)
+          if phase in (0, 2):
             if w.now_us() < alarm:
                 w.goto(alarm)
             else:
@@ -818,7 +843,6 @@ class _Sim:
                 self.emit()
         except Exception:
             self.harness_fail()
-        return self.real_wait(handle)
 
 
 def _canon(log):
@@ -1048,9 +1072,7 @@ def execute(plan, trace=False):
     sim.emit = emit_and_exit
     sim.real_wait = hal.waitForNotifierAlarm
     hal.waitForNotifierAlarm = sim.wait_seam
-    try:
-        robot = Robot()
-        sim.robot = robot
+    def lifetime():
         try:
             robot.startCompetition()
             result_box["outcome"] = ("returned",)
@@ -1060,6 +1082,29 @@ def execute(plan, trace=False):
             import traceback
             result_box["outcome"] = ("error",)
             result_box["exc"] = f"{type(e).__name__}: {e} :: " + traceback.format_exc()[-600:]
+
+    try:
+        robot = Robot()
+        sim.robot = robot
+        if os.environ.get("VERIF_THREADED") == "1":
+            # seam-soundness self-test: robot in its own thread, real blocking notifier wait
+            import threading
+            sim.threaded, sim.at_wait, sim.resumed, sim.booked = True, threading.Event(), threading.Event(), threading.Event()
+            th = threading.Thread(target=lifetime, daemon=True)
+            th.start()
+            import time as _time
+            t_end = _time.monotonic() + 40
+            while th.is_alive() and _time.monotonic() < t_end:
+                if sim.at_wait.wait(timeout=0.01):
+                    sim.at_wait.clear()
+                    sim.seam_work(1)
+                    sim.booked.set()
+                    sim.seam_work(2)
+                    sim.resumed.set()
+            if th.is_alive():
+                return {"status": "error", "error": "threaded arrangement did not finish"}
+        else:
+            lifetime()
     finally:
         hal.waitForNotifierAlarm = sim.real_wait
     return finish()
